@@ -92,9 +92,34 @@ def rat(rng):
     return (n // g, d // g)
 
 
+def exhaustive_small_rings(maxm):
+    """every modulus 2..maxm, every pair of residues in the symmetric range, every binary/unary ring operation"""
+    from math import gcd
+    cases = []
+    for m in range(2, maxm + 1):
+        pr = 1 if isprime(m) else 0
+        rs = list(range(ring_lb(m), ring_ub(m) + 1))
+        for a in rs:
+            for op in ("ineg", "iinc", "idec", "isgn", "iinring", "iabs"):
+                cases.append("%s %d %d" % (op, m, a))
+            cases.append("inorm %d %d" % (m, a + m)); cases.append("inorm %d %d" % (m, a - m)); cases.append("inorm %d %d" % (m, a * m + a))
+            if gcd(a, m) == 1:
+                cases.append("iinv %d %d" % (m, a))
+            for b in rs:
+                for op in ("iadd", "isub", "imul", "icmp"):
+                    cases.append("%s %d %d %d" % (op, m, a, b))
+                if not (pr and a == 0):
+                    cases.append("idivides %d %d %d %d" % (m, pr, a, b))
+                prod = (a * b) % m
+                if prod > ring_ub(m):
+                    prod -= m
+                cases.append("idivexact %d %d %d" % (m, prod, b))
+    return cases
+
+
 def generate(rng, tier, corpus_only=False):
     n = 6000 if tier == "quick" else 120000
-    cases = []
+    cases = exhaustive_small_rings(7 if tier == "quick" else 16)
     iops2 = ["iadd", "isub", "imul"]
     for _ in range(n):
         k = rng.random()
@@ -273,3 +298,8 @@ def nontrivial(case):
     if all(x in ("0", "1") for x in nums):
         return False
     return True
+
+
+def extra_coverage(cases, couts, mouts):
+    return {"exhaustive_subspace": "all moduli 2..7 (quick) / 2..16 (thorough) x all residue pairs x ring operations enumerated completely; the rest is sampled",
+            "exhaustive": False}
